@@ -37,9 +37,9 @@ FAIL CLOSED: a function that is missing, ambiguous or cannot be parsed gets `par
 step list, and the obligations of Props/XlateShape*.lean about it stop checking.  The plug-in never raises and
 never calls `die`.
 
-Standalone:  python3 tools/gen_pipeshape.py [--repo R] [--print] [--pin AREA]
+Standalone:  python3 tools/gen_pipeshape.py [--repo R] [--print] [--pin AREA] [--obligations AREA]
   --pin Chain|Core|Pool prints the `Props/XlateShape<AREA>Pins.lean` file for the current source (to RE-PIN after
-  a reviewed, harmless reordering)."""
+  a reviewed, harmless reordering); --obligations AREA prints `Props/XlateShape<AREA>.lean` likewise."""
 import os, sys
 
 sys.path.insert(0, os.path.dirname(os.path.abspath(__file__)))
@@ -101,6 +101,22 @@ ADAPTORS = {"map_err", "ok_or", "ok_or_else", "map", "and_then", "or_else", "int
             "ok", "err", "to_vec", "borrow", "into_iter", "copied", "unwrap", "expect", "is_err", "is_ok", "is_some",
             "is_none", "filter", "as_slice", "to_string", "as_str"}
 ERR_TYPES = ("Error", "ErrorKind", "PoolError")
+
+
+def _watch():
+    """the list `XlateShape.watch` of Props/XlateShapeLib.lean (single source of truth: that file)"""
+    import re
+    try:
+        txt = open(os.path.join(os.path.dirname(os.path.abspath(__file__)), "..", "lean", "GrinVerif", "Props",
+                                "XlateShapeLib.lean")).read()
+        body = txt[txt.index("def watch : List String :="):]
+        body = body[:body.index("]") + 1]
+        return set(re.findall(r'"([^"]*)"', body))
+    except Exception:      # noqa
+        return set()
+
+
+WATCH = _watch()
 
 
 class Names:
@@ -706,6 +722,65 @@ def pins(repo, area):
     return "\n".join(out) + "\n"
 
 
+def obligations(repo, area):
+    """the `decide`-closed observables of the current source, as the Props/XlateShape<area>.lean file"""
+    res = extract(repo)
+
+    def ls(xs):
+        return "[" + ", ".join(lean_str(x) for x in xs) + "]"
+    out = [f"import GrinVerif.Gen.PipeShape{area}", "import GrinVerif.Props.XlateShapeLib",
+           f"/-! # Obligations about the validation pipelines ({area}), stated over the REGENERATED shape tables",
+           "",
+           f"`Gen/PipeShape{area}.lean` is rewritten on every check run from the current Rust source by",
+           "tools/gen_pipeshape.py.  For every function:",
+           "* `<fn>_order`  — the ORDER of the steps that can end it with an error (`?`-propagated calls, explicit",
+           "  `Err`, tail expression), by callee / error variant: a dropped, added, duplicated or moved check breaks it;",
+           "* `<fn>_propagated` — no call to a validation function (`XlateShape.watch`) has its result discarded",
+           "  (a `?` replaced by `let _ =` / `.ok();` / a bare statement breaks `_order` and this), and the list of all",
+           "  discarded calls (side-effecting helpers) is as reviewed;",
+           "* `<fn>_early_ok` — the conditions under which it returns `Ok` early, and the checks that come BEFORE the",
+           "  first early return (a new early return, or one moved in front of a check, breaks it);",
+           "* `<fn>_errors` — the explicit error variants with the innermost condition they sit under, and the variants",
+           "  introduced by `map_err` (a check weakened by changing its condition or wrapped in a new guard breaks it;",
+           "  `_depth` records the nesting depth of every step).",
+           "All are closed by `decide`.  They do not mention arguments or local names (the exact pins in",
+           f"`Props/XlateShape{area}Pins.lean` do).  After a REVIEWED change regenerate with",
+           f"`python3 tools/gen_pipeshape.py --obligations {area}`; the ties to the hand models are in",
+           "`Props/XlateShapeModel.lean`. -/",
+           f"namespace GV.Props.XlateShape{area}", "open GV.Gen.PipeShape GV.Props.XlateShape", "",
+           "set_option maxRecDepth 4000", ""]
+    for lean, rust, steps, err in res.get(area, []):
+        spine = [n for k, n, _, _, _ in steps if k in ("check", "fail", "tail")]
+        calls = [n for k, n, _, _, _ in steps if k == "call"]
+        early = [g for k, _, _, _, g in steps if k == "okEarly"]
+        before = []
+        for k, n, _, _, g in steps:
+            if k == "okEarly":
+                break
+            if k in ("check", "fail", "tail"):
+                before.append(n)
+        fails = [(n, g[-1] if g else "") for k, n, _, _, g in steps if k == "fail"]
+        mapped = [(n, e) for k, n, _, e, _ in steps if k == "check" and e]
+        depths = [len(g) for k, _, _, _, g in steps if k in ("check", "fail", "tail")]
+        out.append(f"/-! ### `{rust}` -/")
+        out.append(f"theorem {lean}_order : readOk {lean} = true ∧ spine {lean} =\n    {ls(spine)} := by decide")
+        disc = [n for n in calls if n in WATCH]
+        if disc:
+            out.append("/-- REVIEWED: the result of " + ", ".join(f"`{n}`" for n in disc) + " is deliberately ignored here -/")
+        out.append(f"theorem {lean}_propagated : discarded watch {lean} = {ls(disc)} ∧ calls {lean} = {ls(calls)} := by decide")
+        if early:
+            out.append(f"theorem {lean}_early_ok : earlyOks {lean} = [" + ", ".join(ls(g) for g in early) +
+                       f"]\n    ∧ spineBeforeFirstEarlyOk {lean} = {ls(before)} := by decide")
+        else:
+            out.append(f"theorem {lean}_early_ok : earlyOks {lean} = [] := by decide")
+        out.append(f"theorem {lean}_errors : fails {lean} = [" + ", ".join(f"({lean_str(a)}, {lean_str(b)})" for a, b in fails) +
+                   f"]\n    ∧ mapped {lean} = [" + ", ".join(f"({lean_str(a)}, {lean_str(b)})" for a, b in mapped) + "] := by decide")
+        out.append(f"theorem {lean}_depth : depths {lean} = [" + ", ".join(str(d) for d in depths) + "] := by decide")
+        out.append("")
+    out.append(f"end GV.Props.XlateShape{area}")
+    return "\n".join(out) + "\n"
+
+
 def main(argv):
     here = os.path.dirname(os.path.abspath(__file__))
     repo = os.environ.get("VERIF_REPO", "/repo")
@@ -719,6 +794,9 @@ def main(argv):
             show = True; i += 1
         elif argv[i] == "--pin":
             pin = argv[i + 1]; i += 2
+        elif argv[i] == "--obligations":
+            sys.stdout.write(obligations(repo, argv[i + 1]))
+            return 0
         else:
             print(__doc__); return 2
     if pin:
